@@ -712,7 +712,16 @@ func ConvertTypedValueToYANGType(schemaElem *sdcpb.SchemaElem, tv *sdcpb.TypedVa
 		switch schemaElem.GetField().GetType().GetType() {
 		default:
 			return tv, nil
-		case "string", "identityref":
+		case "string":
+			return tv, nil
+		case "identityref":
+			// an identity given by its name (a string value) takes the representation the values reported by a
+			// device have; an unknown identity is left to the validation
+			if _, isString := tv.GetValue().(*sdcpb.TypedValue_StringVal); isString {
+				if itv, err := convertStringToTv(schemaElem.GetField().GetType(), tv.GetStringVal(), tv.GetTimestamp()); err == nil && itv != nil {
+					return itv, nil
+				}
+			}
 			return tv, nil
 		case "leafref":
 			// a leafref value carries the type of the leaf it refers to
